@@ -181,6 +181,12 @@ def run_op(E, op, st):
     elif k == 'raw_update': E.db.execute('update raw_t set b = $b where a = $a', {'a': op[1], 'b': op[2]}, {})
     elif k == 'raw_delete': E.db.execute('delete from raw_t where a = $a', {'a': op[1]}, {})
     elif k == 'db_insert': E.db.insert('raw_t', a=op[1], b=op[2])
+    elif k == 'rawconn_insert':
+        # Database.get_connection(): the raw DB-API connection; what is written on it must be inside the session's transaction
+        con = E.db.get_connection()
+        RAWCONN[0] = True
+        try: con.execute('insert into raw_t (a, b) values (?, ?)', (op[1], op[2]))
+        finally: RAWCONN[0] = False
     elif k == 'db_insert_ret': E.db.insert('raw_t', returning='a', a=op[1], b=op[2])      # the returning_id branch of Database.insert
     elif k == 'select': E.select(t for t in E.T)[:]
     elif k == 'raw_select': E.db.select('* from raw_t')
@@ -258,6 +264,15 @@ FIXED_PROGRAMS = [
     ('db_insert_first', 'optimistic', [['db_insert', 40, 1], ['create_T', 73]]),
     ('db_insert_only', 'optimistic', [['db_insert', 41, 1]]),
     ('db_insert_ret_first', 'optimistic', [['db_insert_ret', 42, 1], ['update_T', 1, 74]]),
+    ('rawconn_after_read', 'optimistic', [['select'], ['rawconn_insert', 50, 1], ['create_T', 75]]),
+    ('rawconn_after_read_immediate', 'immediate', [['select'], ['rawconn_insert', 50, 1], ['create_T', 75]]),
+    ('rawconn_after_read_serializable', 'serializable', [['select'], ['rawconn_insert', 50, 1], ['create_T', 75]]),
+    ('rawconn_after_read_pessimistic', 'pessimistic', [['select'], ['rawconn_insert', 50, 1], ['create_T', 75]]),
+    ('rawconn_after_commit', 'optimistic', [['create_T', 76], ['commit'], ['rawconn_insert', 51, 1], ['update_T', 1, 77]]),
+    ('rawconn_first', 'optimistic', [['rawconn_insert', 52, 1], ['create_T', 78]]),
+    ('rawconn_read_only', 'optimistic', [['select'], ['rawconn_insert', 53, 1]]),
+    ('rawconn_raise', 'optimistic', [['raw_select'], ['rawconn_insert', 54, 1], ['raise']]),
+    ('rawconn_dup', 'optimistic', [['select'], ['rawconn_insert', 55, 1], ['raw_insert', 1, 99]]),
     ('read_only', 'optimistic', [['select'], ['raw_select']]),
     ('empty', 'immediate', []),
 ]
@@ -291,8 +306,10 @@ def random_program(rng):
             cand = [l for l in links if l[0] in ts]
             if cand:
                 l = rng.choice(sorted(cand)); prog.append(['m2m_remove', l[0], l[1]]); links.discard(l)
-        elif r < 0.60:
+        elif r < 0.57:
             prog.append(['raw_insert', next_raw, rng.randint(0, 9)]); raws.append(next_raw); next_raw += 1
+        elif r < 0.60:
+            prog.append(['rawconn_insert', next_raw, rng.randint(0, 9)]); raws.append(next_raw); next_raw += 1
         elif r < 0.66 and raws:
             prog.append(['raw_update', rng.choice(raws), rng.randint(100, 199)])
         elif r < 0.70 and raws:
@@ -494,6 +511,7 @@ def _child_session(template, path, case, kill):
 # write entry points: which function of pony/orm/core.py sends each statement (Python stack at the DB-API call)
 # ---------------------------------------------------------------------------------------------------------------------
 
+RAWCONN = [False]          # a write on the connection returned by Database.get_connection() is under way (set by run_op)
 ENTRY_BY_QUALNAME = {'Database.execute': 'dbExecute', 'Database.insert': 'dbInsert', 'Entity._save_created_': 'saveCreated',
                      'Entity._save_updated_': 'saveUpdated', 'Entity._save_deleted_': 'saveDeleted', 'Set.remove_m2m': 'm2mRemove',
                      'Set.add_m2m': 'm2mAdd', 'Query.delete': 'bulkDelete'}
@@ -517,6 +535,7 @@ def attribute(ev):
             if q == 'EntityMeta._find_in_db_' and f.f_locals.get('for_update'): ev['locking'] = True
             if q == 'Query._actual_fetch' and getattr(f.f_locals.get('query'), '_for_update', False): ev['locking'] = True
         f = f.f_back
+    if RAWCONN[0] and ev.get('entry') is None: ev['entry'] = 'rawConn'
     ev['stack'] = chain[:6]
 
 
@@ -947,9 +966,9 @@ def run(ctx):
         ponyutil.rmtree(workdir)
 
 
-QUICK_FULL_FAULTS = ('raw', 'm2m', 'commit_mid', 'hooks', 'oflush_delete', 'oflush_update', 'oflush_create', 'bulk_first')      # every call index, quick tier too
-THOROUGH_FULL_KILLS = ('raw', 'm2m', 'commit_mid', 'hooks', 'oflush_delete', 'bulk_first', 'db_insert_first', 'dup_caught')
-QUICK_FULL_KILLS = ('commit_mid', 'oflush_delete', 'bulk_first')
+QUICK_FULL_FAULTS = ('raw', 'm2m', 'commit_mid', 'hooks', 'oflush_delete', 'oflush_update', 'oflush_create', 'bulk_first', 'rawconn_after_read', 'rawconn_after_commit')      # every call index, quick tier too
+THOROUGH_FULL_KILLS = ('rawconn_after_read', 'rawconn_after_commit', 'raw', 'm2m', 'commit_mid', 'hooks', 'oflush_delete', 'bulk_first', 'db_insert_first', 'dup_caught')
+QUICK_FULL_KILLS = ('commit_mid', 'oflush_delete', 'bulk_first', 'rawconn_after_read')
 
 
 def _run(ctx, workdir):
@@ -965,7 +984,7 @@ def _run(ctx, workdir):
         g.add(name, prog, opts, warm=False)
         if ctx.thorough or name in ('create', 'raw', 'immediate', 'commit_mid'): g.add(name, prog, opts, warm=True)
         # the same program with every SQL text cache of the Database object warm (program run once before, rolled back)
-        if ctx.thorough or name.startswith(('bulk', 'oflush_delete', 'raw', 'm2m', 'query_delete', 'update_delete', 'for_update')):
+        if ctx.thorough or name.startswith(('bulk', 'rawconn_after', 'oflush_delete', 'raw', 'm2m', 'query_delete', 'update_delete', 'for_update')):
             g.add(name, prog, opts, warm=(name == 'bulk_after_select'), sqlwarm=True)
     for i in range(ctx.scale(14, 100)):
         g.add('random%d' % i, random_program(rng), rng.choice(list(SESSION_OPTS)), warm=rng.random() < 0.3, sqlwarm=rng.random() < 0.4)
